@@ -121,10 +121,17 @@ func Intersect(ctx *expr.Context, input system.Collection, args ...expr.Expressi
 	}
 	var result system.Collection
 	for _, i := range input {
+		if result.Contains(i) {
+			continue // the result is duplicate-free
+		}
 		for _, c := range argValues {
 			if checkEquality(i, c) {
-				v, _ := system.From(c)
-				result = append(result, v)
+				if v, err := system.From(i); err == nil {
+					result = append(result, v)
+				} else {
+					result = append(result, i) // a complex element has no System value
+				}
+				break
 			}
 		}
 	}
